@@ -514,7 +514,7 @@ func (g *appGen) genPost(node string, loaded map[string]bool, hasSink, browse bo
 		incmpTargets[target] = true
 		code = append(code, app.Instr{Op: refdec.INCMP, Sym: refdec.BS(target), Sel: refdec.BS(sel)})
 	}
-	if g.o.PostCroak && g.o.Flags && g.chance(8, "postcroak") {
+	if g.o.PostCroak && g.o.Flags && g.chance(16, "postcroak") {
 		if f, ok := g.clientFlag("postcroakflag"); ok {
 			code = append(code, app.Instr{Op: refdec.CROAK, Num: f, Mode: rapid.Bool().Draw(t, "postcroakmode")})
 		}
